@@ -174,7 +174,7 @@ def gen_request(rng, v, rid, profile):
         opts = {}
         for _ in range(rng.choice([1, 1, 2, 3])):
             k = rng.choice(["numprocesses", "numprocesses", "graceful_timeout", "warmup_delay", "stop_signal",
-                            "stop_children", "send_hup", "uid", "bogus_key", "respawn", "max_retry", "cmd"])
+                            "stop_children", "send_hup", "uid", "bogus_key", "respawn", "max_retry", "cmd", "cmd"])
             opts[k] = {"numprocesses": rng.choice([0, 1, 2, 3, 5, -2, "3", 2.5, True]),
                        "graceful_timeout": rng.choice([0, 0.1, 0.3, 0.5, 2, "x"]),
                        "warmup_delay": rng.choice([0, 0.1, 0.3, None]),
